@@ -240,10 +240,17 @@ def main():
         'not_applicable': na,
         'notes': 'Exit codes of ./check: 0 held on everything observed; 1 VIOLATION (unlisted); 2 INCONCLUSIVE '
                  '(harness gate, deciding hook never reached, watchdog, too few non-trivial cases). '
-                 'Known findings: /verif/known_findings.json.',
+                 'Known findings (open and fixed): /verif/known_findings.json; DESIGN.md section 8. No hook commits exist. '
+                 'Unguarded repairs of genuine defects in /repo ("fix:" commits, oldest first): ' + fix_commits(),
     }
     with open('/verif/MANIFEST.json', 'w') as f:
         json.dump(m, f, indent=1)
         f.write('\n')
+
+def fix_commits():
+    import subprocess
+    out = subprocess.check_output(['git', '-C', '/repo', 'log', '--reverse', '--format=%h %s']).decode().split('\n')
+    return '; '.join(l for l in out if l.split(' ', 1)[-1].startswith('fix:'))
+
 
 main()
